@@ -104,6 +104,38 @@ func mkPowerTable(ps []*big.Int) (*gpbft.PowerTable, error) {
 	return pt, err
 }
 
+// mkPowerTableIncremental builds the table of mkPowerTable by several Add calls over shuffled batches
+func mkPowerTableIncremental(r *rng, ps []*big.Int) (*gpbft.PowerTable, error) {
+	pt := gpbft.NewPowerTable()
+	order := shuffled(r, len(ps))
+	if r.chance(60) {
+		// the largest member last
+		big0 := 0
+		for i, p := range ps {
+			if p.Cmp(ps[big0]) > 0 {
+				big0 = i
+			}
+		}
+		for k, idx := range order {
+			if idx == big0 {
+				order[k], order[len(order)-1] = order[len(order)-1], order[k]
+			}
+		}
+	}
+	for k := 0; k < len(order); {
+		n := 1 + r.intn(3)
+		var batch []gpbft.PowerEntry
+		for ; n > 0 && k < len(order); n, k = n-1, k+1 {
+			i := order[k]
+			batch = append(batch, gpbft.PowerEntry{ID: gpbft.ActorID(100 + i), Power: bigOf(ps[i]), PubKey: []byte{byte(i), byte(i >> 8), 1}})
+		}
+		if err := pt.Add(batch...); err != nil {
+			return nil, err
+		}
+	}
+	return pt, nil
+}
+
 // Independent quorum arithmetic for ORACLES of the harness (never the implementation's own functions: a defect in
 // IsStrongQuorum / Scaled must not be mirrored by the monitor that is supposed to notice it).
 func indepStrong(part, whole int64) bool {
